@@ -24,6 +24,7 @@ import (
 
 	"verif/lib/c12sc"
 	"verif/lib/ev"
+	"verif/lib/psx"
 	"verif/lib/vexp"
 )
 
@@ -328,6 +329,7 @@ func main() {
 			"A violating schedule is re-run and must reproduce before it is reported. distinct = scenarios; outcomes = distinct final states per scenario kind",
 			bound, nSem, nJobs, nLocal)
 		racePass(r)
+		psx.TierBResources(r)
 		r.Set("preemption_bound", bound)
 		r.Set("scenarios", len(fam))
 		r.RunWorkers(0)
